@@ -185,6 +185,9 @@ func runSession(c J) J {
 			obs["msg"] = err.Error()
 			return obs
 		}
+		if m == nil && len(hoisted) > 0 {
+			m = map[string]any{}
+		}
 		for k, v := range hoisted {
 			m[k] = v
 		}
@@ -205,7 +208,10 @@ func runSession(c J) J {
 			obs["msg"] = err.Error()
 			return obs
 		}
-		if _, err := eng.ParseTemplateAndCache([]byte(content), bytesOf(fa[0]), 1); err != nil {
+		cbuf := []byte(content)
+		_, err = eng.ParseTemplateAndCache(cbuf, bytesOf(fa[0]), 1)
+		scribble(cbuf)
+		if err != nil {
 			obs["outcome"] = "skip"
 			obs["msg"] = "cache entry does not parse: " + err.Error()
 			return obs
@@ -214,7 +220,11 @@ func runSession(c J) J {
 	tpls := make([]*liquid.Template, len(srcs))
 	parseErr := make([]liquid.SourceError, len(srcs))
 	for i, s := range srcs {
-		tpls[i], parseErr[i] = eng.ParseString(s)
+		if i%2 == 0 {
+			tpls[i], parseErr[i] = parseScribbled(eng, s, "", 0)
+		} else {
+			tpls[i], parseErr[i] = eng.ParseString(s)
+		}
 	}
 	ops := jarr(c, "ops")
 	events := make([]any, len(ops))
@@ -237,7 +247,11 @@ func runSession(c J) J {
 			}
 			tpl, perr := tpls[t], parseErr[t]
 			if jstr(op, "fresh") != "" {
-				tpl, perr = e.ParseString(srcs[t])
+				if i%2 == 0 {
+					tpl, perr = parseScribbled(e, srcs[t], "", 0)
+				} else {
+					tpl, perr = e.ParseString(srcs[t])
+				}
 			}
 			switch entry {
 			case "Render", "RenderString", "FRender":
@@ -320,17 +334,44 @@ func runSession(c J) J {
 			}(w)
 		}
 		cold := newEngine() // a configured engine that has not parsed anything yet: its first parses happen concurrently
+		var coldMu sync.Mutex
+		coldDiffs := []any{}
 		for g := 0; g < n; g++ {
 			wg.Add(1)
 			go func(g int) {
 				defer wg.Done()
 				<-start
-				func() {
-					defer func() { recover() }()
-					if tpl, err := cold.ParseString(srcs[g%len(srcs)]); err == nil {
-						tpl.RenderString(envs[g%len(envs)])
-					}
-				}()
+				// every goroutine parses every template of the pool on the cold engine (each starting somewhere else):
+				// whatever a parse computes lazily is computed for the first time under contention.  A concurrent
+				// parse must report what the same parse reported alone (on the session's engine, before the start).
+				for k := range srcs {
+					i := (g*7 + k) % len(srcs)
+					func() {
+						defer func() {
+							if r := recover(); r != nil {
+								coldMu.Lock()
+								coldDiffs = append(coldDiffs, fmt.Sprintf("template %d: parse panicked: %v", i, r))
+								coldMu.Unlock()
+							}
+						}()
+						tpl, err := cold.ParseString(srcs[i])
+						seqMsg, conMsg := "", ""
+						if parseErr[i] != nil {
+							seqMsg = parseErr[i].Error()
+						}
+						if err != nil {
+							conMsg = err.Error()
+						}
+						if seqMsg != conMsg {
+							coldMu.Lock()
+							coldDiffs = append(coldDiffs, fmt.Sprintf("template %d: alone %q, concurrently %q", i, seqMsg, conMsg))
+							coldMu.Unlock()
+						}
+						if err == nil && k == 0 {
+							tpl.RenderString(envs[g%len(envs)])
+						}
+					}()
+				}
 				for i := g; i < len(ops); i += n {
 					runOp(i, false)
 				}
@@ -338,6 +379,7 @@ func runSession(c J) J {
 		}
 		close(start)
 		wg.Wait()
+		obs["colddiffs"] = coldDiffs
 		for i := range ops {
 			ev := events[i].(J)
 			b := ev["b"].(int)
